@@ -456,7 +456,7 @@ items:
 		"/w/f.txt":                   "file content\n",
 		"/w/e.env":                   "K=V\n",
 		"/w/cfg.yaml":                "nameReference:\n- kind: ConfigMap\n  fieldSpecs:\n  - path: spec/cmRef\n    kind: MyKind\n",
-		"/w/crd.json":                `{"github.com/example/pkg/apis/v1.MyKind": {"Schema": {"properties": {"spec": {"properties": {"cmRef": {"x-kubernetes-object-ref-api-version": "v1", "x-kubernetes-object-ref-kind": "ConfigMap"}}}}}}}`,
+		"/w/crd.json":                `{"example.com/v1.MyKind": {"Schema": {"properties": {"apiVersion": {"type": "string"}, "kind": {"type": "string"}, "metadata": {"$ref": "k8s.io/apimachinery/pkg/apis/meta/v1.ObjectMeta"}, "spec": {"$ref": "example.com/v1.MyKindSpec"}}}, "Dependencies": ["example.com/v1.MyKindSpec", "k8s.io/apimachinery/pkg/apis/meta/v1.ObjectMeta"]}, "example.com/v1.MyKindSpec": {"Schema": {"properties": {"cmRef": {"x-kubernetes-object-ref-api-version": "v1", "x-kubernetes-object-ref-kind": "ConfigMap", "$ref": "example.com/v1.Ref"}}}, "Dependencies": ["example.com/v1.Ref"]}, "example.com/v1.Ref": {"Schema": {"properties": {"name": {"type": "string"}}}}}`,
 	}
 }
 
